@@ -395,10 +395,83 @@ for case, r in zip(DRAINS, run_parallel(DRAINS, slow_drain, workers=6)):
     if r['ended'] is not None:
         chk.violation('timeout.timing', f'tunnel-carrying-data-closed-for-idleness:{case[1]}|splice={case[0]}' + ('|tls' if case[2] else ''), f'idle={DRAIN_T}, useSplice={case[0]}{", TLS listener" if case[2] else ""}: {case[1]} with a receiver that takes 6 KiB twice a second and a sender that never pauses: the tunnel ended ({r["ended"][0]}) after {r["ended"][1]} s, {r["since_last_bytes_at_receiver_s"]} s after bytes last arrived at the receiver; proxy log: {r["log"]}', replay)
     samples.append(replay)
+# ---- the idle period of one tunnel is not extended by another tunnel's traffic: tunnel A is half-closed by its client
+#      (FIN) in front of an origin that stays silent; tunnel B, opened right afterwards (it inherits whatever
+#      descriptor numbers A's finished direction gave back), moves 3 MiB to a slow receiver for ~15 s
+HALF_T = 4
+def neighbour_traffic(splice):
+    quiet = Origin(lambda c, a, rec: time.sleep(60))
+    def burst(c, a, rec):
+        try:
+            c.sendall(b'x' * (3 << 20))
+            time.sleep(30)
+        except OSError:
+            pass
+    loud = Origin(burst)
+    pa, pb, ap = free_port(), free_port(), free_port()
+    cfg = {'listeners': [{'name': 'a', 'type': 'reverse', 'bind': f'127.0.0.1:{pa}', 'target': f'127.0.0.1:{quiet.port}'},
+                         {'name': 'b', 'type': 'reverse', 'bind': f'127.0.0.1:{pb}', 'target': f'127.0.0.1:{loud.port}'}],
+           'connectors': [{'name': 'direct'}], 'rules': [{'target': 'direct'}], 'timeouts': {'idle': HALF_T, 'udp': HALF_T},
+           'ioParams': {'bufferSize': 65536, 'useSplice': splice}, 'metrics': {'bind': f'127.0.0.1:{ap}', 'ui': None}}
+    px = Proxy(cfg, 'c13n')
+    px.api_port = ap
+    if not px.start([pa, pb, ap]):
+        return {'error': px.log()[-300:]}
+    stop = threading.Event()
+    try:
+        time.sleep(1.2)
+        a = socket.create_connection(('127.0.0.1', pa), timeout=5)
+        time.sleep(0.3)
+        a.shutdown(socket.SHUT_WR)
+        t0 = time.time()
+        time.sleep(0.3)
+        b = socket.socket(); b.setsockopt(socket.SOL_SOCKET, socket.SO_RCVBUF, 4096); b.settimeout(5); b.connect(('127.0.0.1', pb))
+        got = [0]
+        def drain():
+            b.settimeout(1)
+            while not stop.is_set():
+                try:
+                    d = b.recv(20480)
+                except socket.timeout:
+                    continue
+                except OSError:
+                    return
+                if not d:
+                    return
+                got[0] += len(d)
+                time.sleep(0.1)
+        threading.Thread(target=drain, daemon=True).start()
+        a.settimeout(HALF_T + 6)
+        try:
+            d = a.recv(10)
+            closed = round(time.time() - t0, 2)
+        except socket.timeout:
+            closed = None
+        except OSError:
+            closed = round(time.time() - t0, 2)
+        return {'half_closed_tunnel_ended_after_s': closed, 'neighbour_bytes_so_far': got[0]}
+    finally:
+        stop.set()
+        px.stop(); quiet.stop(); loud.stop()
+
+for splice, r in zip((True, False), run_parallel([True, False], neighbour_traffic, workers=2)):
+    evals += 1
+    if isinstance(r, tuple) or 'error' in r:
+        machinery(f'neighbour traffic splice={splice}: {r}')
+    if r['neighbour_bytes_so_far'] < 100_000:
+        machinery(f'neighbour traffic splice={splice}: the neighbouring tunnel moved only {r["neighbour_bytes_so_far"]} bytes')
+    c = r['half_closed_tunnel_ended_after_s']
+    distinct.add(('neighbour-traffic', splice, c is None))
+    replay = {'timeouts': {'idle': HALF_T}, 'useSplice': splice, 'observed': r}
+    if c is None:
+        chk.violation('timeout.timing', f'silent-tcp-tunnel-not-closed-in-time:while-another-tunnel-carries-data|splice={splice}', f'idle={HALF_T}, useSplice={splice}: a tunnel whose client has ended its stream and whose origin is silent was still open {HALF_T + 6} s later while ANOTHER tunnel was moving data', replay)
+    elif c < HALF_T - 0.3:
+        chk.violation('timeout.timing', f'closed-early:half-closed-tunnel|splice={splice}', f'idle={HALF_T}: half-closed silent tunnel closed after {c} s', replay)
+    samples.append(replay)
 echo.stop(); uecho.close()
 if evals < 30 or len(distinct) < 3:
     machinery(f'vacuous: evals={evals} distinct={len(distinct)}')
 cov = {'evaluations': evals, 'distinct_nontrivial': len(distinct), 'transitions': evals, 'traces_validated_against_impl': evals,
-       'rule': 'real binary: timeouts.idle x timeouts.udp grid (16 cells) x 7 tunnel kinds, idle_timeout reported by /api/live vs configured/default; close timing of silent tcp and udp tunnels with T=2, T=0 and four periods whose millisecond count exceeds 64 bits; tcp tunnels and udp associations (socks5, http inline) whose set-up (client handshake / upstream answer) takes longer than the period must get a whole period once established; a tunnel whose receiver drains 6 KiB twice a second under a sender that never pauses (both directions, both I/O modes) stays open for 4 periods',
+       'rule': 'real binary: timeouts.idle x timeouts.udp grid (16 cells) x 7 tunnel kinds, idle_timeout reported by /api/live vs configured/default; close timing of silent tcp and udp tunnels with T=2, T=0 and four periods whose millisecond count exceeds 64 bits; tcp tunnels and udp associations (socks5, http inline) whose set-up (client handshake / upstream answer) takes longer than the period must get a whole period once established; a tunnel whose receiver drains 6 KiB twice a second under a sender that never pauses (both directions, both I/O modes) stays open for 4 periods; a half-closed silent tunnel is closed in time while a neighbouring tunnel moves 3 MiB to a slow receiver (both I/O modes)',
        'grid_cells': len(grid), 'tunnel_kinds': list(IS_UDP), 'schedule_control': 'kernel', 'samples': samples}
 sys.exit(chk.finish('model_checking', cov, ['E4 part: real clock; late bounds carry 1 s ticker (+1 s GC for the registry) + 2 s slack, early bounds 300 ms (a reply written in two small pieces reaches the client up to a delayed-ACK period after the proxy started the tunnel)']))
